@@ -30,6 +30,31 @@ def ret_defs(b):
     return [describe(b, ("call", bb) if si == "term" else b.origin_rvalue(x)) for (bb, si, x) in b.defs.get(0, [])]
 
 
+def _empty_input_guard(b, bb, inputs=("p1",)):
+    from guards import EMPTY_PREDS, LEN_FNS
+    for g in guards_at(b, bb):
+        if g[0] == "pred" and g[1] in EMPTY_PREDS and g[3] is True and describe(b, g[2]) in inputs:
+            return True
+        if g[0] == "cmp" and (g[2], g[3]) == (0, 0) and describe(b, g[1]) in ["%s(%s)" % (l, i) for l in LEN_FNS for i in inputs]:
+            return True
+    return False
+
+
+EMPTY_RESULTS = ("LeanString::new()", "core::result::Result::Ok{LeanString::new()}")
+
+
+def ret_defs_nonempty(b, inputs=("p1",)):
+    """ret_defs without the early `LeanString::new()` returned for an empty input (decoding nothing
+    gives the empty string: the general path would build the same)"""
+    out = []
+    for (bb, si, x) in b.defs.get(0, []):
+        d = describe(b, ("call", bb) if si == "term" else b.origin_rvalue(x))
+        if d in EMPTY_RESULTS and _empty_input_guard(b, bb, inputs):
+            continue
+        out.append(d)
+    return out
+
+
 STR_EQ = ("core::str::traits::<impl core::cmp::PartialEq for str>::eq",)
 # `a == b` on two &str desugars to the &A == &B blanket impl, which forwards to str's eq
 STR_EQ_ALL = STR_EQ + ("core::cmp::impls::<impl core::cmp::PartialEq<&B> for &A>::eq",)
@@ -118,7 +143,11 @@ def rule_C17(ctx, rule="C17-deleg"):
                 ob(ok, "hash = <str as Hash>::hash(text(self), state)", "Hash::hash calls %s" % calls)
             elif tr in ("core::fmt::Display", "core::fmt::Debug") and nm == "fmt":
                 want = "<str as %s>::fmt(TEXT(p1), p2)" % tr
-                ob(ds == [want] and not [n for n in calls if n not in GLUE_CALLS and not n.endswith("::fmt")], "fmt = <str as %s>::fmt(text(self), f)" % tr.rsplit("::", 1)[1], "%s::fmt returns %s (calls %s)" % (tr, ds, calls))
+                okf = ds == [want] and not [n for n in calls if n not in GLUE_CALLS and not n.endswith("::fmt")]
+                if not okf and tr == "core::fmt::Display":
+                    # <str as Display>::fmt(s, f) is, by definition, f.pad(s)
+                    okf = ds == ["core::fmt::Formatter::<'a>::pad(p2, TEXT(p1))"] and not [n for n in calls if n not in GLUE_CALLS and n != "core::fmt::Formatter::<'a>::pad"]
+                ob(okf, "fmt = <str as %s>::fmt(text(self), f)" % tr.rsplit("::", 1)[1], "%s::fmt returns %s (calls %s)" % (tr, ds, calls))
             elif tr in ("core::ops::deref::Deref", "core::borrow::Borrow") or (tr == "core::convert::AsRef" and targs == ["str"]):
                 ob(ds == ["TEXT(p1)"] and not [n for n in calls if n not in GLUE_CALLS], "%s = as_str(self)" % nm, "%s::%s returns %s" % (tr, nm, ds))
             elif tr == "core::convert::AsRef" and targs == ["[u8]"]:
@@ -149,7 +178,10 @@ def rule_views(ctx, rule="C17-deleg"):
         ctx.need(rule, fn, "anchor", b is not None, "%s not found" % fn)
         if b:
             ds = ret_defs(b)
-            ctx.ob(rule, fn, "view", ds == [want], how="%s = %s" % (fn, want), detail="%s returns %s" % (fn, ds))
+            okv = ds == [want]
+            if fn == "LeanString::is_empty" and not okv:
+                okv = ds in (["Eq(LeanString::len(p1), const:0)"], ["Eq(repr::Repr::len(p1.0), const:0)"])   # len() == 0, one level up
+            ctx.ob(rule, fn, "view", okv, how="%s = %s" % (fn, want), detail="%s returns %s" % (fn, ds))
     b = F.bodies.get("repr::Repr::is_empty")
     if b:
         ds = ret_defs(b)
@@ -289,6 +321,8 @@ def rule_C16(ctx, rule="C16-decode"):
         oks = [d for d in ds if d.startswith("core::result::Result::Ok{")]
         ok = len(oks) == 1 and re.match(r"^core::result::Result::Ok\{%s\(ok\(core::str::converts::from_utf8\(p1\)\)\)\}$" % FROMSTR, oks[0]) is not None
         alt = ds == ["core::result::Result::<T, E>::map(alloc::string::String::from_utf8(p1), fn:<LeanString as core::convert::From<alloc::string::String>>::from)"]
+        # `str::from_utf8(buf).map(LeanString::from)`: the same two arms, written as a combinator
+        alt = alt or (len(ds) == 1 and re.match(r"^core::result::Result::<T, E>::map\(core::str::converts::from_utf8\(p1\), fn:(core::convert::From::from::<LeanString, &(\'\w+ )?str>|<LeanString as core::convert::From<&(\'\w+ )?str>>::from|core::convert::Into::into::<&(\'\w+ )?str, LeanString>)\)$", ds[0]) is not None)
         ctx.ob(rule, b.path, "Ok=from(validated text)", ok or alt, how="Ok(LeanString::from(core::str::from_utf8(buf)?))", detail="from_utf8 returns %s" % ds)
         errs = [d for d in ds if d.startswith("err(")]
         ctx.ob(rule, b.path, "Err=utf8 error unchanged", alt or errs == ["err(core::str::converts::from_utf8(p1))"], how="core's Utf8Error is returned as is", detail="from_utf8 error path is %s" % [d for d in ds if d not in oks])
@@ -334,11 +368,28 @@ def rule_C16(ctx, rule="C16-decode"):
             ctx.ob(rule, b.path, "replacement-iff-invalid-nonempty", okc, how="push(U+FFFD) exactly on the edge !chunk.invalid().is_empty()", detail="replacement character logic: %s" % why)
             # the result is the string the chunks were appended to - on every path (a fast path that
             # returns something built from one chunk's valid part skips the replacement logic)
-            rds = ret_defs(b)
+            rds = ret_defs_nonempty(b)
             ctx.ob(rule, b.path, "result=accumulator", len(ps) == 1 and rds == [ps[0].desc(0)], how="returns the string every chunk was appended to (%s)" % (rds[:1]), detail="from_utf8_lossy can return %s; the appends go to %s" % (rds, [st.desc(0) for st in ps]))
             # the push of the replacement comes after the valid part of the same chunk
             if ps and pc:
-                ctx.ob(rule, b.path, "order", ps[0].body is pc[0].body and ps[0].body.dominates(ps[0].bb, pc[0].bb), how="valid part appended before the replacement", detail="replacement pushed before the chunk's valid part")
+                # within one iteration: once the replacement is pushed, the valid part's push is not
+                # reached any more (before the next chunk is taken); and the valid part is appended on
+                # every path to the replacement, except across an edge on which it is empty
+                from guards import reach_cut, empty_edge
+                X = ps[0].body
+                nexts = {bb for bb, t in X.calls() if callee_name(t).endswith("Iterator>::next") or callee_name(t) == "core::iter::traits::iterator::Iterator::next"}
+                okord = ps[0].body is pc[0].body
+                if okord:
+                    tgt = X.term(pc[0].bb).get("target")
+                    after = reach_cut(X, tgt, lambda q: q in nexts) if tgt is not None else set()
+                    okord = ps[0].bb not in after
+                    isvalid = lambda d: re.match(r"^core::str::lossy::Utf8Chunk::<'\w+>::valid\(item\(%s\)\)$" % CH, d) is not None
+                    starts = [X.term(n)["target"] for n in nexts if X.term(n).get("target") is not None] or [0]
+                    for st0 in starts:
+                        seen = reach_cut(X, st0, lambda q: q == ps[0].bb or q in nexts, lambda sb, lab: empty_edge(X, sb, lab, isvalid, ps[0].subst[-1]))
+                        if pc[0].bb in seen:
+                            okord = False
+                ctx.ob(rule, b.path, "order", okord, how="valid part appended before the replacement", detail="replacement pushed before the chunk's valid part (or the valid part can be skipped)")
     _no_arith_on_input(ctx, rule, "LeanString::from_utf8_lossy")
     # from_utf16
     b = F.bodies.get("LeanString::from_utf16")
@@ -357,7 +408,7 @@ def rule_C16(ctx, rule="C16-decode"):
         pc = inlined_sites(root, lambda nm: nm in ("LeanString::push", "LeanString::try_push"))
         okp = len(pc) == 1 and re.match(r"^ok\((core::result::Result::<T, E>::map_err\()?item\(%s\)" % DEC, pc[0].desc(1)) is not None
         ctx.ob(rule, b.path, "push(Ok(c))", okp, how="pushes every successfully decoded char unchanged", detail="push operand is %s" % [st.desc(1) for st in pc])
-        okd = [d for d in ret_defs(root) if d.startswith("core::result::Result::Ok{")]
+        okd = [d for d in ret_defs_nonempty(root) if d.startswith("core::result::Result::Ok{")]
         if len(pc) == 1 and pc[0].chain[0][0] is root:
             ctx.ob(rule, root.path, "result=accumulator", okd == ["core::result::Result::Ok{%s}" % pc[0].desc(0)], how="Ok carries the string every char was pushed to", detail="from_utf16 can return %s; the pushes go to %s" % (okd, pc[0].desc(0)))
         # Err(FromUtf16Error) on the first decoding error: an Err built under the Err arm of the decoded
@@ -392,7 +443,7 @@ def rule_C16(ctx, rule="C16-decode"):
     b = F.bodies.get("LeanString::from_utf16_lossy")
     ctx.need(rule, "LeanString::from_utf16_lossy", "anchor", b is not None, "from_utf16_lossy not found")
     if b:
-        ds = ret_defs(b)
+        ds = ret_defs_nonempty(b)
         ok = len(ds) == 1 and re.match(r"^core::iter::traits::iterator::Iterator::collect\(core::iter::traits::iterator::Iterator::map\(core::char::methods::<impl char>::decode_utf16\(core::iter::traits::iterator::Iterator::copied\(core::slice::<impl \[T\]>::iter\(p1\)\)\), LeanString::from_utf16_lossy::\{closure#\d+\}::None\{\}\)\)$", ds[0]) is not None
         alt = len(ds) == 1 and "String::from_utf16_lossy(p1)" in ds[0]
         ok = ok or (len(ds) == 1 and re.match(r"^<LeanString as core::iter::traits::collect::FromIterator<char>>::from_iter\(core::iter::traits::iterator::Iterator::map\(core::char::methods::<impl char>::decode_utf16\(core::iter::traits::iterator::Iterator::copied\(core::slice::<impl \[T\]>::iter\(p1\)\)\), LeanString::from_utf16_lossy::\{closure#\d+\}::None\{\}\)\)$", ds[0]) is not None)
@@ -487,7 +538,14 @@ def rule_C15(ctx, rule="C15"):
     ctx.need(rule, "LeanString", "fmt::Write", len(im) == 1, "fmt::Write for LeanString missing")
     if im:
         extra = [k for k in im[0]["items"] if k != "write_str"]
-        ctx.ob(rule, "<LeanString as core::fmt::Write>", "only-write_str", not extra, how="only write_str is overridden", detail="fmt::Write overrides %s" % extra)
+        if extra == ["write_char"]:
+            # an override that does what the provided method does: append the char, Ok(())
+            wc = F.bodies.get(im[0]["items"]["write_char"])
+            if wc is not None:
+                cs = [(callee_name(t), [describe(wc, wc.origin_operand(a)) for a in t["args"]]) for _, t in wc.calls()]
+                if cs == [("LeanString::push", ["p1", "p2"])] and ret_defs(wc) == ["core::result::Result::Ok{tuple::None{}}"]:
+                    extra = []
+        ctx.ob(rule, "<LeanString as core::fmt::Write>", "only-write_str", not extra, how="only write_str is overridden (or write_char as push(c); Ok(()))", detail="fmt::Write overrides %s" % extra)
         b = F.bodies.get(im[0]["items"].get("write_str"))
         if b:
             calls = [(callee_name(t), [describe(b, b.origin_operand(a)) for a in t["args"]]) for _, t in b.calls()]
@@ -501,6 +559,20 @@ def rule_C15(ctx, rule="C15"):
                     sites = inlined_sites(b, lambda nm: nm == "LeanString::push_str")
                     allc = [callee_name(t) for _, _, t in inlined_calls(b)]
                     ok = len(sites) == 1 and [sites[0].desc(0), sites[0].desc(1)] == ["p1", "p2"] and all(n == "LeanString::push_str" or n in fw for n in allc)
+                if not ok:
+                    # ... which may itself be push_str written out: try_push_str(rhs) + the message panic
+                    import r_api
+                    uw, panic_fn = r_api.find_unwrap_helper(F)
+                    with inlining(fw | {"LeanString::push_str"}):
+                        sites = inlined_sites(b, lambda nm: nm == "LeanString::try_push_str")
+                        allc = [callee_name(t) for _, _, t in inlined_calls(b)]
+                        ok = len(sites) == 1 and [sites[0].desc(0), sites[0].desc(1)] == ["p1", "p2"] and (uw in allc or panic_fn in allc) and all(n in ("LeanString::push_str", "LeanString::try_push_str", uw, panic_fn) or n in fw for n in allc)
+            if not ok and set(ds) == {"core::result::Result::Ok{tuple::None{}}"}:
+                # an early `Ok(())` for the empty slice, where push_str appends nothing
+                from guards import must_pass_call, empty_edge
+                pure = ("core::str::<impl str>::is_empty", "core::str::<impl str>::len")
+                ok = all(c == ("LeanString::push_str", ["p1", "p2"]) or (c[0] in pure and c[1] == ["p2"]) for c in calls) and \
+                    must_pass_call(b, {"LeanString::push_str"}, 0, cut=lambda sb, lab: empty_edge(b, sb, lab, ("p2",)))
             ctx.ob(rule, b.path, "write_str=push_str", ok, how="write_str(s) = push_str(s); Ok(())", detail="write_str does %s and returns %s" % (calls, ds))
     # the generic fallback of try_to_lean_string
     key = "<T as traits::ToLeanString>::try_to_lean_string"
